@@ -119,6 +119,161 @@ theorem vlan_roundtrip (h : Vlan) (wf : h.WF) (rest : Bytes) :
     cases dei <;> simp [Vlan.fromSlice, Vlan.sliceToHeader, be16, e] <;> omega
   · cases dei <;> simp [Vlan.fromBytes] <;> omega
 
+/-! ## Ipv6FragmentHeader -/
+
+theorem frag_layout (h : Frag6) (wf : h.WF) (f : Field) (hf : f ∈ ipv6Frag) :
+    extract f h.toBytes = h.get f.name := by
+  rw [Frag6.toBytes_arith h wf]
+  obtain ⟨h1, h2, h3⟩ := wf
+  have hb : b2n h.mf < 2 := by unfold b2n; split <;> omega
+  simp only [ipv6Frag, List.mem_cons, List.mem_nil_iff, or_false] at hf
+  rcases hf with rfl | rfl | rfl | rfl | rfl | rfl <;>
+    simp [extract, Field.nBytes, Field.low, spanVal, Frag6.get] <;> omega
+
+theorem frag_set_wf (h : Frag6) (wf : h.WF) (f : Field) (hf : f ∈ ipv6Frag) (v : Nat)
+    (hv : v < 2 ^ f.width) : (h.set f.name v).WF := by
+  obtain ⟨h1, h2, h3⟩ := wf
+  simp only [ipv6Frag, List.mem_cons, List.mem_nil_iff, or_false] at hf
+  rcases hf with rfl | rfl | rfl | rfl | rfl | rfl <;> simp [Frag6.set, Frag6.WF] at hv ⊢ <;> omega
+
+theorem frag_field_isolated (h : Frag6) (wf : h.WF) (f : Field) (hf : f ∈ ipv6Frag)
+    (hs : f.name ∈ Frag6.settable) (v : Nat) (hv : v < 2 ^ f.width) :
+    (h.set f.name v).toBytes.length = h.toBytes.length ∧
+    extract f (h.set f.name v).toBytes = v ∧
+    ∀ g ∈ ipv6Frag, g ≠ f → extract g (h.set f.name v).toBytes = extract g h.toBytes := by
+  have wf' := frag_set_wf h wf f hf v hv
+  refine ⟨by simp [Frag6.toBytes], ?_, ?_⟩
+  · rw [frag_layout _ wf' f hf]
+    simp only [ipv6Frag, List.mem_cons, List.mem_nil_iff, or_false] at hf
+    rcases hf with rfl | rfl | rfl | rfl | rfl | rfl <;>
+      simp [Frag6.set, Frag6.get, Frag6.settable, b2n] at hv hs ⊢
+    split <;> omega
+  · intro g hg hne
+    rw [frag_layout _ wf' g hg, frag_layout _ wf g hg]
+    simp only [ipv6Frag, List.mem_cons, List.mem_nil_iff, or_false] at hf hg
+    rcases hf with rfl | rfl | rfl | rfl | rfl | rfl <;>
+      rcases hg with rfl | rfl | rfl | rfl | rfl | rfl <;>
+      first | exact absurd rfl hne | simp [Frag6.set, Frag6.get]
+
+theorem frag_decode_in_range (b : Bytes) (h : Frag6) (r : Bytes)
+    (hd : Frag6.fromSlice b = .ok (h, r)) : h.WF := by
+  have := bAt_lt b 0; have := bAt_lt b 2; have := bAt_lt b 3; have := be32_lt b 4
+  unfold Frag6.fromSlice at hd
+  split at hd
+  · cases hd
+  · cases hd
+    simp only [Frag6.WF]; omega
+
+theorem frag_decode_layout (b : Bytes) (h : Frag6) (r : Bytes)
+    (hd : Frag6.fromSlice b = .ok (h, r)) (f : Field) (hf : f ∈ ipv6Frag)
+    (hs : f.name ∈ Frag6.settable) : extract f b = h.get f.name := by
+  have := bAt_lt b 0; have := bAt_lt b 2; have := bAt_lt b 3
+  have := bAt_lt b 4; have := bAt_lt b 5; have := bAt_lt b 6; have := bAt_lt b 7
+  unfold Frag6.fromSlice at hd
+  split at hd
+  · cases hd
+  · cases hd
+    simp only [ipv6Frag, List.mem_cons, List.mem_nil_iff, or_false] at hf
+    rcases hf with rfl | rfl | rfl | rfl | rfl | rfl <;>
+      simp [extract, Field.nBytes, Field.low, spanVal, Frag6.get, Frag6.settable, be32, b2n] at hs ⊢ <;>
+      (try split) <;> omega
+
+theorem frag_roundtrip (h : Frag6) (wf : h.WF) (rest : Bytes) :
+    Frag6.fromSlice (h.toBytes ++ rest) = .ok (h, rest) := by
+  rw [Frag6.toBytes_arith h wf]
+  obtain ⟨h1, h2, h3⟩ := wf
+  cases h with | mk nh fo mf id =>
+  simp only at h1 h2 h3
+  have e : ¬ (List.length rest + 1 + 1 + 1 + 1 + 1 + 1 + 1 + 1 < 8) := by omega
+  cases mf <;> simp [Frag6.fromSlice, be32, e, b2n] <;> omega
+
+/-! ## igmp::MembershipQueryWithSourcesHeader (IGMPv3 query) -/
+
+theorem igmp_layout (h : Query) (wf : h.WF) (cks : Nat) (hc : cks < 65536) (f : Field)
+    (hf : f ∈ igmpQuery) : extract f (h.toBytes cks) = h.get cks f.name := by
+  obtain ⟨h1, h2, h3, h4, h5⟩ := wf
+  have := bAt_lt h.group 0; have := bAt_lt h.group 1; have := bAt_lt h.group 2
+  have := bAt_lt h.group 3
+  simp only [igmpQuery, List.mem_cons, List.mem_nil_iff, or_false] at hf
+  rcases hf with rfl | rfl | rfl | rfl | rfl | rfl | rfl | rfl | rfl <;>
+    simp [extract, Field.nBytes, Field.low, spanVal, Query.get, Query.toBytes, arr_toNat] <;> omega
+
+/-- the accessors read the bits of the table and return in-range values. -/
+theorem igmp_accessors (raw : Nat) (hr : raw < 256) :
+    Query.flags raw = extract ⟨"flags", 0, 0, 4⟩ [u8 raw] ∧
+    b2n (Query.sFlag raw) = extract ⟨"s", 0, 4, 1⟩ [u8 raw] ∧
+    Query.qrv raw = extract ⟨"qrv", 0, 5, 3⟩ [u8 raw] ∧
+    Query.flags raw < 2 ^ 4 ∧ Query.qrv raw < 2 ^ 3 := by
+  refine ⟨?_, ?_, ?_, ?_, ?_⟩ <;>
+    simp [extract, Field.nBytes, Field.low, spanVal, Query.flags, Query.sFlag, Query.qrv, b2n] <;>
+    (try split) <;> omega
+
+/-- `set_qrv` with an in-range value, `set_s_flag` and `set_flags` (any `u8`, the low four bits are
+    kept) rewrite exactly their own bits of `raw_byte_8`. -/
+theorem igmp_setters_isolated (raw : Nat) (hr : raw < 256) (f : Field) (hf : f ∈ igmpByte8) :
+    (∀ v, v < 2 ^ 3 → Query.setQrv raw v < 256 ∧
+      extract f [u8 (Query.setQrv raw v)] = if f.name = "qrv" then v else extract f [u8 raw]) ∧
+    (∀ s, Query.setSFlag raw s < 256 ∧
+      extract f [u8 (Query.setSFlag raw s)] = if f.name = "s" then b2n s else extract f [u8 raw]) ∧
+    (∀ v, Query.setFlags raw v < 256 ∧
+      extract f [u8 (Query.setFlags raw v)] =
+        if f.name = "flags" then v % 2 ^ 4 else extract f [u8 raw]) := by
+  simp only [igmpByte8, List.mem_cons, List.mem_nil_iff, or_false] at hf
+  refine ⟨?_, ?_, ?_⟩
+  · intro v hv
+    rw [Query.setQrv_arith]
+    rcases hf with rfl | rfl | rfl <;>
+      simp [extract, Field.nBytes, Field.low, spanVal] <;> omega
+  · intro s
+    rw [Query.setSFlag_arith]
+    have : b2n s < 2 := by unfold b2n; split <;> omega
+    rcases hf with rfl | rfl | rfl <;>
+      simp [extract, Field.nBytes, Field.low, spanVal] <;> omega
+  · intro v
+    rw [Query.setFlags_arith]
+    rcases hf with rfl | rfl | rfl <;>
+      simp [extract, Field.nBytes, Field.low, spanVal] <;> omega
+
+theorem igmp_decode_in_range (b : Bytes) (h : Query) (cks : Nat) (r : Bytes)
+    (hd : Query.fromSlice b = .ok (.query h cks r)) : h.WF ∧ cks < 65536 := by
+  have := bAt_lt b 1; have := bAt_lt b 2; have := bAt_lt b 3; have := bAt_lt b 8
+  have := bAt_lt b 9; have := bAt_lt b 10; have := bAt_lt b 11
+  unfold Query.fromSlice at hd
+  repeat (split at hd <;> try cases hd)
+  simp [Query.WF]; omega
+
+theorem igmp_decode_layout (b : Bytes) (h : Query) (cks : Nat) (r : Bytes)
+    (hd : Query.fromSlice b = .ok (.query h cks r)) (f : Field) (hf : f ∈ igmpQuery) :
+    extract f b = h.get cks f.name := by
+  have := bAt_lt b 0
+  have := bAt_lt b 1; have := bAt_lt b 2; have := bAt_lt b 3; have := bAt_lt b 8
+  have := bAt_lt b 9; have := bAt_lt b 10; have := bAt_lt b 11
+  have := bAt_lt b 4; have := bAt_lt b 5; have := bAt_lt b 6; have := bAt_lt b 7
+  unfold Query.fromSlice at hd
+  split at hd
+  · cases hd
+  · split at hd
+    · rename_i h17
+      split at hd
+      · cases hd
+      · split at hd
+        · cases hd
+          simp only [igmpQuery, List.mem_cons, List.mem_nil_iff, or_false] at hf
+          rcases hf with rfl | rfl | rfl | rfl | rfl | rfl | rfl | rfl | rfl <;>
+            simp [extract, Field.nBytes, Field.low, spanVal, Query.get, arr_toNat] <;> omega
+        · cases hd
+    · cases hd
+
+theorem igmp_roundtrip (h : Query) (wf : h.WF) (cks : Nat) (hc : cks < 65536) (rest : Bytes) :
+    Query.fromSlice (h.toBytes cks ++ rest) = .ok (.query h cks rest) := by
+  obtain ⟨h1, h2, h3, h4, h5⟩ := wf
+  cases h with | mk mrc group raw qqic ns =>
+  simp only at h1 h2 h3 h4 h5
+  have e : ¬ (List.length rest + 1 + 1 + 1 + 1 + 1 + 1 + 1 + 1 + 1 + 1 + 1 + 1 < 8) := by omega
+  have e3 : List.length rest + 1 + 1 + 1 + 1 + 1 + 1 + 1 + 1 + 1 + 1 + 1 + 1 ≥ 12 := by omega
+  simp [Query.fromSlice, Query.toBytes, e, e3, list4_eta group h2]
+  omega
+
 /-! ## non-vacuity -/
 
 example : Vlan.WF ⟨5, true, 0xABC, 0x8100⟩ := by decide
